@@ -48,10 +48,12 @@ func setOrder(mp simrt.MapPolicy, seed uint64) { simrt.SetMapOrder(mp, seed) }
 func faultRun(t *rapid.T) {
 	mode := uni(t, "mode", 10)
 	switch {
-	case mode <= 6:
+	case mode <= 5:
 		faultProbeRun(t)
-	case mode <= 7:
+	case mode <= 6:
 		tolerantRun(t)
+	case mode <= 7:
+		brokenTagRun(t)
 	default:
 		naturalFailRun(t)
 	}
@@ -474,6 +476,100 @@ func naturalFailRun(t *rapid.T) {
 			r := newRuntime(&sp, true)
 			setOrder(mp, mseed)
 			return r.render()
+		})
+	}
+}
+
+var anyLineRe = regexp.MustCompile(`(?m)^line (\d+): `)
+
+// shiftLines adds k to the N of every "line N: " that starts a line of msg
+// (a parse error lists several messages, one per line).
+func shiftLines(msg string, k int) string {
+	return anyLineRe.ReplaceAllStringFunc(msg, func(s string) string {
+		m := anyLineRe.FindStringSubmatch(s)
+		n, _ := strconv.Atoi(m[1])
+		return fmt.Sprintf("line %d: ", n+k)
+	})
+}
+
+// brokenTagRun — the parse-error side of C15 for single-line tags: a
+// template with one syntactically broken tag (curated kinds, each a single
+// line) after arbitrary earlier material must be rejected with an error whose
+// first message names the line of that tag, and prepending k newlines must
+// add k to every line number in the message and change nothing else.
+func brokenTagRun(t *rapid.T) {
+	if !propEnabled("C15") {
+		naturalFailRun(t)
+		return
+	}
+	p := genProgram(t, genOpts{noise: true, brokenPct: 100})
+	if p.Broken == "" {
+		return
+	}
+	mp := simrt.MapPolicy(uni(t, "maporder", 4))
+	mseed := rapid.Uint64().Draw(t, "mapseed")
+	render := func(main string) (string, error) {
+		sp := *p
+		sp.Main = main
+		r := newRuntime(&sp, true)
+		setOrder(mp, mseed)
+		return r.render()
+	}
+	out, err := render(p.Main)
+	count("fault_runs", 1)
+	count("fault_fired_syntax-error", 1)
+	count("pos_fired_top-level-broken-tag", 1)
+	det := func() map[string]interface{} {
+		d := p.describe()
+		d["broken_tag"], d["broken_line"] = p.Broken, p.BrokenLine
+		d["output"], d["error"] = out, fmt.Sprint(err)
+		return d
+	}
+	if err == nil {
+		// whether a template is rejected at all is not C15's subject (the
+		// parser accepts `continue` after a for over a call expression has
+		// ended, for one): C15 speaks about the errors that ARE returned
+		count("c15_broken_tag_accepted", 1)
+		return
+	}
+	if out != "" {
+		violate(t, "C15", "rejected-template-returns-empty-output", "c15:syntax-partial-output", det)
+		return
+	}
+	if _, panicked := err.(*renderPanic); panicked {
+		count("render_panicked_syntax-error", 1)
+		return // totality of parsing is C03's subject
+	}
+	count("c15_line_checks", 1)
+	if p.BrokenLine > 1 {
+		seen("c15", hashStr(p.Main, "broken"))
+	}
+	m := lineRe.FindStringSubmatch(err.Error())
+	if m == nil {
+		violate(t, "C15", "error-starts-with-line", "c15:no-line-prefix:syntax", det)
+		return
+	}
+	if got, _ := strconv.Atoi(m[1]); got != p.BrokenLine {
+		violate(t, "C15", "error-names-line-of-failing-tag", "c15:wrong-line:syntax", func() map[string]interface{} {
+			d := det()
+			d["expected_line"], d["reported_line"] = p.BrokenLine, got
+			return d
+		})
+		return
+	}
+	js := []int{1, 2, 7}
+	if thorough {
+		js = append(js, 100)
+	}
+	j := js[uni(t, "shift", len(js))]
+	sout, serr := render(strings.Repeat("\n", j) + p.Main)
+	count("c15_shift_runs", 1)
+	want := shiftLines(err.Error(), j)
+	if serr == nil || sout != "" || serr.Error() != want {
+		violate(t, "C15", "shift-by-k-newlines-adds-k", "c15:shift:syntax", func() map[string]interface{} {
+			d := det()
+			d["shift"], d["shifted_error"], d["expected_shifted_error"] = j, fmt.Sprint(serr), want
+			return d
 		})
 	}
 }
